@@ -116,9 +116,27 @@ def cdevobs(d):
 def capi_case(ops, res):
     ops_l, outs = [], []
     for op, st in zip(ops, res["steps"]):
+        if "op_exc" in st:      # the driver could not perform the operation: never equal to the model
+            ops_l.append("ApiSerialise %s" % C.cnat(0)); outs.append("AObsBytes (ObsRaise OtherExn)")
+            break
         if op[0] == "parse":
             ops_l.append("ApiParse %s" % cbytes(bytes.fromhex(op[1])))
             outs.append("AObsParse (%s)" % ("ObsOk %s" % clist([cobs(x) for x in st["out"]]) if "out" in st else "ObsRaise %s" % cexn(st["exc"])))
+        elif op[0] == "build":
+            ops_l.append("ApiBuild %s" % clist([ccall(c) for c in op[1]]))
+            outs.append("AObsParse (%s)" % ("ObsOk %s" % clist([cobs(x) for x in st["out"]]) if "out" in st else "ObsRaise %s" % cexn(st["exc"])))
+        elif op[0] == "add":
+            ops_l.append("ApiAdd %s (%s)" % (C.cnat(op[1]), ccall(op[2])))
+            outs.append("AObsNone" if "exc" not in st else "AObsParse (ObsRaise %s)" % cexn(st["exc"]))
+        elif op[0] == "remove":
+            ops_l.append("ApiRemove %s %s" % (C.cnat(op[1]), C.cnat(op[2])))
+            outs.append("AObsNone")
+        elif op[0] == "reparse":
+            ops_l.append("ApiReparse %s" % C.cnat(op[1]))
+            if "bytes" not in st:
+                outs.append("AObsBytes (ObsRaise %s)" % cexn(st["exc"]))
+            else:
+                outs.append("AObsParse (%s)" % ("ObsOk %s" % clist([cobs(x) for x in st["out"]]) if "out" in st else "ObsRaise %s" % cexn(st["parse_exc"])))
         elif op[0] == "set":
             _, i, j, attr, val = op
             if attr == "company":
@@ -154,6 +172,56 @@ def gen_api_case(rng, x, ref):
     ops += [["parse", hx_], ["ser", 1], ["ser", 0], ["parse", hx_]]
     ops += edits(2)
     ops += [["ser", 1], ["ser", 2], ["ser", 0], ["parse", hx_], ["ser", 3]]
+    return ops
+
+
+SETTER_KINDS = {"ShortName": ["name"], "CompleteName": ["name"], "Manuf": ["company", "data"]}
+
+
+def gen_built_case(rng):
+    """build a list with the constructors / to_bytes / edit every held record that has a setter, to_bytes
+    after each edit / parse it / add() / edit again / to_bytes / parse / remove() / to_bytes.
+    All values stay inside the round-trip domain (wf_rec), so every parse must show the CURRENT values."""
+    def wf_call(k):
+        for _ in range(20):
+            c = gen_call(rng, k)
+            if call_domain(c, True) is None and not (k == "Manuf" and c["a"][0] >= 65536) \
+                    and not (k == "Uuid16s" and any(len(h) != 4 for h in c["a"][1])) \
+                    and not (k == "Appearance" and c["a"][0] >= 65536) and not (k == "LeRole" and c["a"][0] >= 4):
+                return c
+        return {"k": "Flags", "a": [False, True, True, False]}
+    kinds = [rng.choice(["ShortName", "CompleteName", "Manuf"])]
+    kinds += [rng.choice(["Flags", "TxPower", "LeRole", "Appearance", "Manuf", "ShortName", "CompleteName", "Uuid16s", "LeFeatures"])
+              for _ in range(rng.choice([0, 1, 1, 2]))]
+    rng.shuffle(kinds)
+    calls = []
+    for k in kinds:
+        c = wf_call(k)
+        if k in ("ShortName", "CompleteName"):
+            c["a"][0] = c["a"][0][:2 * rng.choice([0, 1, 4, 8])]
+        if k == "Manuf":
+            c["a"][1] = c["a"][1][:2 * rng.choice([0, 1, 4])]
+        calls.append(c)
+    def edit(j, k):
+        attr = rng.choice(SETTER_KINDS[k])
+        if attr == "company":
+            return ["set", 0, j, "company", rng.choice([0, 1, 0x1234, 0xFFFF, rng.randrange(65536)])]
+        return ["set", 0, j, attr, rand_bytes(rng, rng.choice([0, 1, 3, 7])).hex()]
+    ops = [["build", calls], ["ser", 0]]
+    if rng.random() < 0.3:
+        ops.append(["ser", 0])
+    for j, k in enumerate(kinds):
+        if k in SETTER_KINDS:
+            ops += [edit(j, k), ["ser", 0]]
+    ops.append(["reparse", 0])
+    extra = rng.choice(["CompleteName", "ShortName", "Manuf", "Flags"])
+    c = wf_call(extra)
+    if extra != "Flags":
+        c["a"][-1 if extra == "Manuf" else 0] = c["a"][-1 if extra == "Manuf" else 0][:4]
+    ops += [["add", 0, c], ["ser", 0]]
+    if extra in SETTER_KINDS:
+        ops += [edit(len(kinds), extra), ["ser", 0], ["reparse", 0]]
+    ops += [["remove", 0, rng.randrange(len(kinds))], ["ser", 0], ["reparse", 0]]
     return ops
 
 
@@ -518,6 +586,10 @@ def run(ctx):
     api_x += named[:(1200 if T else 110)] + [rand_tlv(rng)[:31] for _ in range(300 if T else 40)]
     api_ref = C.run_impl("C15.py", {"parse": [b.hex() for b in api_x]})["parse"]     # clean process
     api_in = [gen_api_case(rng, x, r) for x, r in zip(api_x, api_ref)]
+    n_api_parsed = len(api_in)
+    for _ in range(1500 if T else 160):
+        api_in.append(gen_built_case(rng))
+        api_x.append(b""); api_ref.append({})
     ra = C.run_impl("C15.py", {"api": api_in})["api"]                               # ONE process for all sequences
     # CPython codec facts
     dec_in = [bytes([a]) for a in range(256)]
@@ -597,11 +669,16 @@ def run(ctx):
                    expected="no exception for any sequence", observed=last["exc"])
     # API sequences: every parse of x returns what a parse of x returns in a clean process, whatever
     # was done to records returned by earlier parses; a list nobody edited serialises as in the clean process
-    n_api_parse = n_api_edits = 0
+    n_api_parse = n_api_edits = n_api_ser = 0
     for i, ops in enumerate(api_in):
         ref, x = api_ref[i], api_x[i]
         edited, k, bad = set(), 0, None
+        built = i >= n_api_parsed
         for op, st in zip(ops, ra[i]["steps"]):
+            if "op_exc" in st:
+                bad = ("operation %r raised %s: the list does not hold the records that were built / added" % (op[:3], st["op_exc"]),
+                       "a list holding one record per constructor call / add()", st["op_exc"])
+                break
             if op[0] == "parse":
                 n_api_parse += 1
                 if st.get("out") != ref.get("out") or st.get("exc") != ref.get("exc"):
@@ -609,15 +686,27 @@ def run(ctx):
                     break
                 if "out" in st:
                     k += 1
-            elif op[0] == "set":
+            elif op[0] in ("set", "add", "remove"):
                 edited.add(op[1]); n_api_edits += 1
-            elif op[1] not in edited and st.get("bytes") != ref.get("reser"):
-                bad = ("from_bytes(x).to_bytes() of a list that was never edited differs from the fresh-process value", ref.get("reser"), st.get("bytes", st.get("exc")))
-                break
+            elif op[0] in ("ser", "reparse"):
+                n_api_ser += 1
+                # to_bytes() = the serialisation of the records the list holds NOW (= of a new list holding them)
+                if st.get("bytes") != st.get("fresh") or st.get("exc") != st.get("fresh_exc"):
+                    bad = ("to_bytes() differs from the serialisation of the records the list currently holds (stale bytes)",
+                           st.get("fresh", st.get("fresh_exc")), st.get("bytes", st.get("exc")))
+                    break
+                if op[0] == "ser" and not built and op[1] not in edited and st.get("bytes") != ref.get("reser"):
+                    bad = ("from_bytes(x).to_bytes() of a list that was never edited differs from the fresh-process value", ref.get("reser"), st.get("bytes", st.get("exc")))
+                    break
+                # built lists stay inside the round-trip domain: the parse exposes the CURRENT values
+                if op[0] == "reparse" and built and "bytes" in st and st.get("out") != st["current"]:
+                    bad = ("from_bytes(list.to_bytes()) does not expose the values the list currently holds", st["current"], st.get("out", st.get("parse_exc")))
+                    break
         if bad:
             report("api-sequence", bad[0], {"op": "api", "x": x.hex(), "ops": shrink_api(ops, x) if seen_classes.get("api-sequence", 0) < 1 else ops},
                    expected=bad[1], observed=bad[2])
-    ctx.cov["api_sequences"] = {"sequences": len(api_in), "parses": n_api_parse, "edits_through_setters": n_api_edits}
+    ctx.cov["api_sequences"] = {"sequences": len(api_in), "on_parsed_lists": n_api_parsed, "on_built_lists": len(api_in) - n_api_parsed,
+                                "parses": n_api_parse, "edits_add_remove_setters": n_api_edits, "serialisations_checked_against_current_records": n_api_ser}
     # what is reported when (plain scans: updates=False, no filter, so the returned list is
     # exactly what the timeout sweep reports): a device is returned exactly once, by the first
     # call after which it has a scan response or that is made > 500 ms after it was first stored
@@ -848,14 +937,22 @@ def shrink_seq(case, cls):
 
 def api_violation(ops, steps, ref):
     edited = set()
+    built = any(op[0] == "build" for op in ops)
     for op, st in zip(ops, steps):
+        if "op_exc" in st:
+            return True
         if op[0] == "parse":
             if st.get("out") != ref.get("out") or st.get("exc") != ref.get("exc"):
                 return True
-        elif op[0] == "set":
+        elif op[0] in ("set", "add", "remove"):
             edited.add(op[1])
-        elif op[1] not in edited and st.get("bytes") != ref.get("reser"):
-            return True
+        elif op[0] in ("ser", "reparse"):
+            if st.get("bytes") != st.get("fresh") or st.get("exc") != st.get("fresh_exc"):
+                return True
+            if op[0] == "ser" and not built and op[1] not in edited and st.get("bytes") != ref.get("reser"):
+                return True
+            if op[0] == "reparse" and built and "bytes" in st and st.get("out") != st["current"]:
+                return True
     return False
 
 
@@ -864,7 +961,8 @@ def shrink_api(ops, x):
     ref = C.run_impl("C15.py", {"parse": [x.hex()]})["parse"][0]
     cur = ops
     for _ in range(6):
-        cands = [cur[:i] + cur[i + 1:] for i in range(len(cur)) if cur[i][0] != "parse"]
+        # (add / remove shift record positions: they are kept)
+        cands = [cur[:i] + cur[i + 1:] for i in range(len(cur)) if cur[i][0] in ("set", "ser", "reparse")]
         # dropping a trailing parse is allowed too
         cands += [cur[:-1]] if cur and cur[-1][0] == "parse" and len(cur) > 1 else []
         if not cands:
@@ -929,7 +1027,7 @@ def replay(payload):
         ref = C.run_impl("C15.py", {"parse": [case["x"]]})["parse"][0]
         r = C.run_impl("C15.py", {"api": [case["ops"]]})["api"][0]
         for op, st in zip(case["ops"], r["steps"]):
-            print(op, "->", st)
+            print(op, "->", {k: v for k, v in st.items() if k != "current"})
         bad = api_violation(case["ops"], r["steps"], ref)
         print("property STILL violated (a later parse / untouched list differs from the fresh-process parse)" if bad else "property holds on this sequence")
         return 1 if bad else 0
